@@ -1094,8 +1094,8 @@ fn exec_sys_function(song: &mut Song, t: &Token) -> bool {
     else if func_name == "MID" || func_name == "Mid" {
         if arg_count >= 3 {
             let val = args[0].to_s();
-            let i_from = args[1].to_i() as usize;
-            let i_len = args[2].to_i() as usize;
+            let i_from = args[1].to_i().max(0) as usize; // negative position = start of the string
+            let i_len = args[2].to_i().max(0) as usize; // negative length = empty
             // println!("MID={},{},{}", val, i_from, i_len);
             let s = vb_mid(&val, i_from, i_len).unwrap_or("");
             // println!("MID={}", s);
